@@ -32,7 +32,7 @@ def main():
         ops = payload[3][1:]
         ro, rp = os_[2], ps[2]
         if not (isinstance(ro, list) and isinstance(rp, list) and ro[0] == "r" and rp[0] == "r"):
-            print("CASE", cs[1], "obs", show(ro)[:300], "pred", show(rp)[:300]); n += 1; continue
+            print("CASE", cs[1], "obs", show(ro)[:100], "pred", show(rp)[:100]); n += 1; continue
         for i, opx in enumerate(ops):
             a = ro[i + 1] if i + 1 < len(ro) else "?"
             b = rp[i + 1] if i + 1 < len(rp) else "?"
@@ -40,10 +40,11 @@ def main():
                 key = (show(payload[2])[:60], opx[0])
                 summary[key] = summary.get(key, 0) + 1
                 if n < mx:
-                    print("case %s schema %s\n   op %s\n   impl  %s\n   model %s" % (cs[1], show(payload[2])[:200], show(opx)[:200], show(a)[:300], show(b)[:300]))
+                    W = int(os.environ.get("W", "220"))
+                    print("case %s op#%d schema %s\n   op %s\n   impl  %s\n   model %s" % (cs[1], i, show(payload[2])[:W], show(opx)[:W], show(a)[:W], show(b)[:W]))
                 n += 1
     print("TOTAL differing ops:", n)
-    for k, v in sorted(summary.items(), key=lambda kv: -kv[1])[:40]:
+    for k, v in sorted(summary.items(), key=lambda kv: -kv[1])[:int(os.environ.get("S","8"))]:
         print("  %5d  %s  op=%s" % (v, k[0], k[1]))
 
 main()
